@@ -1,8 +1,8 @@
 package rules
 
 import (
-	"go/token"
 	"fmt"
+	"go/token"
 	"go/types"
 	"sort"
 
